@@ -566,24 +566,22 @@ mutual
     | d + 1, s :: ss => do compileStmt d s; compileStmts d ss
 end
 
-/-- The root symbol table as `lib.CompileSource` + `NewCompiler` build it: builtins, then the
-inputs with `Define`, then the builtins once more (`store[name]` of an input named like a builtin is
-replaced; its global index stays allocated). -/
+/-- The root symbol table as `lib.CompileSource` + `NewCompiler` build it: the builtins, then the inputs with
+`Define` (an input named like a builtin replaces the builtin's `store` entry); `NewCompiler` defines the
+builtins once more but skips every name that resolves to a non-builtin symbol (fix O32), so the inputs keep
+shadowing. -/
 def initState (inputs : List String) : CState :=
-  let step (acc : CState) (n : String) : CState :=
-    let (sym, c) := defineIn n acc.nextId acc.tables
-    let _ := sym
-    { acc with tables := c, nextId := acc.nextId + 1, assigned := acc.assigned.push false }
-  let s := inputs.foldl step {}
-  let rec builtins (i : Nat) (id : Nat) : List String → List (String × Sym) → List (String × Sym)
+  let rec builtins (i : Nat) : List String → List (String × Sym) → List (String × Sym)
     | [], acc => acc
-    | n :: ns, acc => builtins (i + 1) (id + 1) ns ((n, ⟨n, .builtin, i, id⟩) :: acc)
+    | n :: ns, acc => builtins (i + 1) ns ((n, ⟨n, .builtin, i, i⟩) :: acc)
   let nb := Spec.builtinNames.length
-  match s.tables with
-  | [root] =>
-    { s with tables := [{ root with store := builtins 0 s.nextId Spec.builtinNames root.store }],
-             nextId := s.nextId + nb, assigned := s.assigned ++ (List.replicate nb false).toArray }
-  | _ => s
+  let s0 : CState :=
+    { tables := [{ store := builtins 0 Spec.builtinNames [] }], nextId := nb,
+      assigned := (List.replicate nb false).toArray }
+  let step (acc : CState) (n : String) : CState :=
+    let (_, c) := defineIn n acc.nextId acc.tables
+    { acc with tables := c, nextId := acc.nextId + 1, assigned := acc.assigned.push false }
+  inputs.foldl step s0
 
 /-- Depth budget of the traversal (the AST reader's own budget is 4000). -/
 def fuel : Nat := 1000000
